@@ -510,6 +510,14 @@ func getObjStm(r Getter, stream *Stream, getInt getIntFn, enc *encryptInfo) (_ *
 	if err != nil {
 		return nil, err
 	}
+	// on success the caller closes the reader (objStm.Close); on every error
+	// path below nobody else can: a filter stage that owns a goroutine
+	// (DCTDecode) would stay blocked for ever
+	defer func() {
+		if err != nil {
+			decoded.Close()
+		}
+	}()
 	s := newScanner(decoded, getInt, enc)
 
 	idx := make([]stmObj, n)
